@@ -8,7 +8,7 @@ use std::rc::Rc;
 use std::sync::Arc;
 use std::thread;
 
-use crate::coroutine_impl::{spawn_builder, Builder, Coroutine};
+use crate::coroutine_impl::{current_cancel_data, is_coroutine, spawn_builder, Builder, Coroutine};
 use crate::join::JoinHandle;
 use crate::sync::AtomicOption;
 
@@ -48,7 +48,20 @@ impl JoinState {
         let mut state = JoinState::Joined;
         mem::swap(self, &mut state);
         if let JoinState::Running(handle) = state {
+            // the scope must not be left before the coroutine is done, not even
+            // when the owner is cancelled: the coroutine may borrow the owner's stack
+            let cancel = if is_coroutine() {
+                Some(current_cancel_data())
+            } else {
+                None
+            };
+            if let Some(c) = cancel {
+                c.disable_cancel();
+            }
             let res = handle.join();
+            if let Some(c) = cancel {
+                c.enable_cancel();
+            }
 
             // TODO: when panic happened, the logic need to refine
             if !thread::panicking() {
